@@ -596,7 +596,7 @@ def run(ctx):
         t0 = rng.choice([0, 0, rng.randint(-3, 12)])
         solves = []
         for j in range(rng.choice([1, 1, 2, 3])):
-            T = rng.randint(9, 20) if long else rng.randint(1, 8)
+            T = rng.randint(8, 11) if long else rng.randint(1, 7)      # exact rationals over Q grow like T^3 bits
             sym = rng.random() < 0.85
             stages = [gen_stage(rng, sym=sym) for _ in range(T)]
             u = None if rng.random() < 0.4 else [dy(rng, 4, -2, 2) for _ in range(T)]
@@ -670,9 +670,9 @@ def run(ctx):
     lap('scalar-impl')
     # ------------------------------------------------------------------ run Coq on the scalar cases
     files = []
-    for si, sh in enumerate(shard(hist_cases, 40)):
+    for si, sh in enumerate(shard(hist_cases, 16)):
         files.append(('hist_%03d' % si, HDR + 'Eval vm_compute in lqr_hist_bad %s.\n' % coq_list(sh)))
-    for si, sh in enumerate(shard(mpc_cases, 20)):
+    for si, sh in enumerate(shard(mpc_cases, 12)):
         files.append(('mpc_%03d' % si, HDR + 'Eval vm_compute in mpc_bad %s.\n' % coq_list(sh)))
     res = run_case_files('C14', files, timeout=600)
     table = dict(hist=hist_meta, mpc=mpc_meta)
@@ -689,10 +689,13 @@ def run(ctx):
 
     lap('scalar-coq')
     # ------------------------------------------------------------------ 4. general route: LQR against the property
-    nprob = ctx.scale(46, 400)
+    nprob = ctx.scale(70, 400)
     directed = [((1, 1, 1, 1), 'lti'), ((1, 1, 1, 2), 'ltv'), ((2, 2, 1, 3), 'lti'), ((3, 3, 2, 4), 'ltv'), ((1, 6, 6, 20), 'lti'),
                 ((1, 1, 6, 5), 'ltv'), ((3, 6, 1, 6), 'ltv'), ((2, 4, 3, 5), 'lti'), ((1, 2, 2, 20), 'ltv'), ((3, 2, 3, 1), 'ltv')]
+    work, budget = 0, ctx.scale(9e5, 3e7)        # deterministic work budget (about 1 s per 25000 units)
     for k in range(nprob):
+        if k >= len(directed) and work > budget:
+            break
         sizes, kind = directed[k] if k < len(directed) else (None, None)
         if sizes is None and not ctx.thorough and rng.random() < 0.6:
             sizes = (rng.randint(1, 3), rng.randint(1, 4), rng.randint(1, 4), rng.randint(1, 7))
@@ -705,6 +708,7 @@ def run(ctx):
             elif j == 0 and rng.random() < 0.25:
                 system.reset(rng.randint(1, 30))
             S = gen_solve(rng, g, nb, ns, nc, T)
+            work += nb * T * (ns + nc) ** 3
             tb = int(system.systime)
             r = run_lqr(system, S)
             case = dict(kind='general', P=dict(P, t0=tb), S=S)
